@@ -74,6 +74,15 @@ CHECKS = {
              'and each transition is replayed: setattr/getattr/delattr on a generated struct, the generated union member constructor, '
              'json_compat_obj_decode of a primitive; accepted iff Accepts, refusal must be ValidationError, read-back must equal Norm.',
         ref='3.4, 4 (C08)'),
+    'C09': dict(
+        technique='TLA+ spec StoneLoadMC (module load machine with partial modules; PySurface derived from the API model) explored by TLC; every model generated, imported in fresh interpreters and introspected',
+        text='TLC enumerates 109 API models and every namespace as first import, checks LoadIffAcyclic / NoLoadError (module-level '
+             'execution with partially initialised modules succeeds iff no import cycle is reachable) and CtorCoversAllFields. Each model is '
+             'generated with python_types; every first-import choice runs in a fresh interpreter; the imported modules are compared with '
+             'PySurface: classes and Python bases, constructor parameter order, read/write/delete of every field incl. inherited ones, '
+             'is_/get_/constructor helpers, ready void-tag instances, validators, alias bindings, route objects (name, version, deprecated, '
+             'validators, attrs) and ROUTES.',
+        ref='3.7, 4 (C09)'),
     'C11': dict(
         technique='TLA+ authoring machine StoneSemMC (WriteDef/Finish: every order, file split and file order are behaviours) explored by TLC with invariant OrderFree; all layouts of an instance compiled and compared',
         text='TLC checks on the model that verdict, rule attribution and denoted API are independent of definition order, of the split '
@@ -91,6 +100,21 @@ CHECKS = {
              'documented rules; each state is replayed: the produced text is searched for omitted member names and sentinels and '
              'compared with the exact predicted document, and strict decoding per caller is compared with the predicted outcome.',
         ref='3.5, 4 (C13)'),
+    'C14': dict(
+        technique='TLA+ spec StoneLoadMC (Signature / CallShapes / Request) explored by TLC; every call shape issued on a recording subclass of the generated client',
+        text='For every route of 109 models TLC enumerates every call shape (k leading positionals, remaining required by keyword, optional '
+             'ones none/singly/all) and predicts the request; SignatureIsCtorOrder and CallsWellFormed are model-checked. Each call is made '
+             'on the python_client output imported next to the python_types output: method name and parameters with spec defaults, exactly '
+             'one request with the route object (identity), namespace, argument == struct built from distinct per-field values, upload '
+             'body, DeprecationWarning iff deprecated, return value (None for Void).',
+        ref='3.7, 4 (C14)'),
+    'C15': dict(
+        technique='TLA+ operators PySurface and Pep (Stone type -> PEP 484) evaluated by TLC on every model; compared with the ast of the generated .pyi and the introspected runtime module',
+        text='For each of 109 models the stub of every namespace must parse (ast) and declare exactly the classes, bases, constructor '
+             'parameters, field attributes, is_/get_/constructor helpers, void-tag attributes, validators, alias bindings and route objects '
+             'of PySurface (which the runtime modules are checked against as well); every annotation must equal the Pep mapping computed '
+             'by the specification and use only bound names.',
+        ref='3.7, 4 (C15)'),
     'C18': dict(
         technique='TLA+ spec StoneEmit (path resolution by segment stack; emitter buffer machine with Escape/Format transcribed character by character vs reference pretty-printer; real vs manifest run of open/copy/write scripts) explored by TLC; every state replayed on real Backend subclasses',
         text='TLC enumerates all 2064 paths of 1-3 segments over {name, name, ., .., empty, non-ASCII} x {relative, absolute outside, absolute '
